@@ -54,7 +54,21 @@ def rand_clause_list(rng, nv):
             out.append("p" + "-" * rng.randrange(0, nv + 1))              # the empty clause
         else:
             out.append(rand_clause(rng, nv))
-    rng.shuffle(out)
+    k = rng.random()
+    if k < 0.6:
+        rng.shuffle(out)
+    elif k < 0.75:
+        out.sort()                                                        # sorted / reverse-sorted lists
+    elif k < 0.9:
+        out.sort(reverse=True)
+    # else: generation order (a subsuming / subsumed / complementary clause right after its source)
+    if out and rng.random() < 0.2:
+        # a clause subsumed by an earlier one (more literals) at the very end, and one subsuming everything at the front
+        c = list(out[0][1:])
+        for i in range(len(c)):
+            if c[i] == "-" and rng.random() < 0.5:
+                c[i] = rng.choice("01")
+        out.append("p" + "".join(c))
     return out
 
 
